@@ -5,7 +5,7 @@
 // The runner drives the REAL slot state machine (pkg/slot/fsm) on a real
 // metadata DB.  One op line = one ApplyBatch call (`batch a ; b ; c` = several
 // commands in one call) or one environment step (`setmeta`).  Guard / proof
-// fields may be symbolic: `*` = the value currently stored, `^` = stored + 1;
+// fields may be symbolic: `*` = the value currently stored, `^` = stored + 1, `~` = stored - 1;
 // they are resolved against the state BEFORE the line, identically by the Lean
 // model, so that fresh guards stay fresh under shrinking.
 package main
@@ -113,6 +113,11 @@ func c17Val(tok string, cur uint64) uint64 {
 		return cur
 	case "^":
 		return cur + 1
+	case "~":
+		if cur == 0 {
+			return 0
+		}
+		return cur - 1
 	}
 	return c17Lit(tok)
 }
@@ -423,10 +428,11 @@ func (r *c17Runner) setMeta(f []string) string {
 	m.LeaseUntilMS = int64(a.lit())
 	m.Replicas = c17List(a.next())
 	m.ISR = c17List(a.next())
-	m.WriteFenceToken = c17Tok(a.lit())
-	m.WriteFenceVersion = a.lit()
-	m.WriteFenceReason = uint8(a.lit8())
-	m.WriteFenceUntilMS = int64(a.lit())
+	cur := r.curMeta(c)
+	m.WriteFenceToken = c17Tok(a.val(c17TokCur(cur.WriteFenceToken)))
+	m.WriteFenceVersion = a.val(cur.WriteFenceVersion)
+	m.WriteFenceReason = uint8(a.val8(uint64(cur.WriteFenceReason)))
+	m.WriteFenceUntilMS = int64(a.val(uint64(cur.WriteFenceUntilMS)))
 	a.done()
 	ctx := context.Background()
 	if err := r.store().DeleteChannelRuntimeMeta(ctx, m.ChannelID, m.ChannelType); err != nil && !errors.Is(err, metadb.ErrNotFound) {
